@@ -54,8 +54,9 @@ def exc_class(name):
         if SubFilter is None:
             SubFilter = type('SubFilter', (lazy_dataset.FilterException,), {'__module__': __name__})
         return SubFilter
-    return {'ValueError': ValueError, 'KeyError': KeyError, 'IndexError': IndexError,
-            'Exception': Exception}[name]
+    return {'ValueError': ValueError, 'KeyError': KeyError, 'IndexError': IndexError, 'Exception': Exception,
+            'NotImplementedError': NotImplementedError, 'TypeError': TypeError, 'AssertionError': AssertionError,
+            'RuntimeError': RuntimeError, 'AttributeError': AttributeError}[name]
 
 
 def source(spec):
